@@ -338,7 +338,7 @@ fn leaves_of(f: &F) -> Vec<F> {
 
 pub fn run(tier: Tier) -> i32 {
     let mut run = Run::new("C08", tier, "model_checking");
-    run.rule = "filter trees built from the public node structs: every leaf over literals of every admissible kind (strings with every escape class, numbers ± fraction / 1e21 / 1e-7 / units, dates, times with fraction, timestamps UTC and zoned (+/-, two-digit hour, half hour, zero offset), refs with and without display name incl. a quote, uris, symbols, booleans), paths of 1-4 segments incl. names that start with a keyword, not, ^symbol, *==, four relationship forms; every and/or/parens shape with <= 2 (thorough 3) leaves over a core. (1) Filter::to_string then Filter::try_from gives an equal tree (Debug rendering) and reprints identically; (2) every spelling of the reference printer with <= 2 deviations (required white space: one space / two / newline / tab; optional white space around operators, parens and ->: default / toggled / newline / two spaces) parses to the same tree. (3) long chains: n flat parenthesised groups, n leaves, n and-in-or terms, nesting n deep, for every n 1..72, 100, 120, 126..130, 255..257, 1000; (4) flat chains of 5 000 / 20 000 / 100 000 (thorough 300 000) operands in five shapes, each printed, parsed and reprinted in a child process on a 2 MiB stack (crash / hang = exit status / 30 s watchdog). states = trees, transitions = spellings parsed".into();
+    run.rule = "filter trees built from the public node structs: every leaf over literals of every admissible kind (strings with every escape class, numbers ± fraction / 1e21 / 1e-7 / units, dates, times with fraction, timestamps UTC and zoned (+/-, two-digit hour, half hour, zero offset), refs with and without display name incl. a quote, uris, symbols, booleans), paths of 1-4 segments incl. names that start with a keyword, not, ^symbol, *==, four relationship forms; every and/or/parens shape with <= 2 (thorough 3) leaves over a core. (1) Filter::to_string then Filter::try_from gives an equal tree (Debug rendering) and reprints identically; (2) every spelling of the reference printer with <= 2 deviations (required white space: one space / two / newline / tab; optional white space around operators, parens and ->: default / toggled / newline / two spaces) parses to the same tree. (3) long chains: n flat parenthesised groups, n leaves, n and-in-or terms, nesting n deep, for every n 1..72, 100, 120, 126..130, 255..257, 1000; (4) flat chains of 5 000 / 20 000 / 100 000 (thorough 300 000) operands in five shapes, each printed, parsed and reprinted in a child process on a 2 MiB stack (crash / hang = exit status / 30 s watchdog). (5) history independence of the parser over ~330 texts (well-formed ones and every proper prefix of six multi-segment filters: errors at every position): all ordered pairs, and every third failing text 300 times before each of the six. states = trees, transitions = spellings parsed".into();
     run.assume("an 'equal filter' compares Refs by id (libhaystack's and Haystack's Ref equality): display names of Refs are not compared");
     run.assume("filter grammar of DESIGN Appendix A.3; literal syntax = Zinc scalar syntax; tag names exclude the reserved words");
     crate::engine::quiet_panics();
@@ -425,6 +425,43 @@ pub fn run(tier: Tier) -> i32 {
     });
     run.absorb(l);
     run.require(run.counter("long-chains") > 300, "long chains missing");
+    // history independence of the parser: the tree (or the error) for a text is the same whether
+    // it is the first text parsed on a thread or follows any other text — well-formed texts and
+    // every proper prefix of six multi-segment ones (errors at every position, incl. inside a
+    // path, a literal, a relationship term); all ordered pairs, and each failing text 300 times
+    {
+        let mut texts: Vec<String> = core_leaves().iter().map(print_canonical).collect();
+        let long: Vec<String> = vec![
+            "equipRef->siteRef->dis == \"HQ\" and not a->b->c".into(),
+            "a->b->c >= 5kW or b->c == @r \"d\"".into(),
+            "containedBy? ^site @r and x->y".into(),
+            "(a->b or c->d->e < 2021-01-01) and f *== @x".into(),
+            "a->b->c->d == `u` or ^lib:ph and inputs? ^air".into(),
+            "ts->mod > 2021-01-01T00:00:00-05:00 New_York".into(),
+        ];
+        for t in &long {
+            for k in 0..=t.len() {
+                if t.is_char_boundary(k) {
+                    texts.push(t[..k].to_string());
+                }
+            }
+        }
+        texts.sort();
+        texts.dedup();
+        let op = |t: &String| -> String {
+            match Filter::try_from(t.as_str()) {
+                Ok(f) => format!("ok {}", tree_key(&f)),
+                Err(e) => format!("err {e}"),
+            }
+        };
+        run.note("parser_history_texts", json!(texts.len()));
+        let l = super::common::history_pairs("filter-parser", &texts, &op, &|t: &String| json!(t));
+        run.absorb(l);
+        let failing: Vec<String> = texts.iter().filter(|t| op(t).starts_with("err")).step_by(3).cloned().collect();
+        let then: Vec<String> = long.clone();
+        let l = super::common::history_after_repeats("filter-parser", &failing, &then, 300, &op, &|t: &String| json!(t));
+        run.absorb(l);
+    }
     // very long flat chains, each in a child process on a 2 MiB stack
     {
         let sizes = flat_sizes(tier);
@@ -492,6 +529,18 @@ pub fn child(tier: Tier, job: String, start: u64, end: u64, ctx: &mut crate::eng
 }
 
 pub fn replay(case: &J) -> Verdict {
+    if case["history_pair"].is_string() || case["history_repeats"].is_string() {
+        let op = |t: &String| -> String {
+            match Filter::try_from(t.as_str()) {
+                Ok(f) => format!("ok {}", tree_key(&f)),
+                Err(e) => format!("err {e}"),
+            }
+        };
+        if case["history_repeats"].is_string() {
+            return super::common::replay_history_repeats(case, &|j| j.as_str().unwrap_or("").to_string(), &op, "filter-parser");
+        }
+        return super::common::replay_history_pair(case, &|j| j.as_str().unwrap_or("").to_string(), &op, "filter-parser");
+    }
     if case.get("generated").is_some() {
         let jobname = format!("onegen:flat:{}", case["ordinal"].as_u64().unwrap_or(0));
         let c2 = case.clone();
